@@ -122,6 +122,18 @@ class DomHooks(SelfHooks):
         if fname == 'hasattr' and len(args) == 2 and isinstance(args[0], (A.Obj, A.TextObj)) and isinstance(args[1], str):
             if args[1] in args[0].attrs:
                 return True
+            if isinstance(args[0], A.Obj) and isinstance(args[0].cls, M.ClassInfo) and args[1].isidentifier() and interp.inline_depth > 0:
+                owner = self.model.find_attr_class(args[0].cls, args[1])
+                if owner is not None and args[1] in owner.properties and 'get' in owner.properties[args[1]]:
+                    # hasattr() on a property runs its getter (with its side effects); AttributeError means "no"
+                    src = ast.Attribute(value=node.args[0], attr=args[1], ctx=ast.Load())
+                    ast.copy_location(src, node)
+                    had = state.env.get('__exc')
+                    interp.ev(src, state)
+                    if state.env.get('__exc') == 'AttributeError' and had is None:
+                        state.env.pop('__exc')
+                        return False
+                    return True
             if isinstance(args[0], A.Obj) and isinstance(args[0].cls, M.ClassInfo) and args[1] != '_dom_childNodes' \
                and self.model.find_attr_class(args[0].cls, args[1]) is not None:
                 return True
@@ -179,4 +191,29 @@ def link_problems(parent, expect_parent=True):
             out.append('%s.parentNode is %s' % (label_of(c), label_of(c.attrs.get('parentNode'))))
         if c.attrs.get('ownerDocument') is not parent.attrs.get('ownerDocument'):
             out.append('%s.ownerDocument is not the document of its parent' % label_of(c))
+    return out
+
+
+def init_attrs(m, cls):
+    """Constructor summary: the attributes that the __init__ methods of `cls` and its bases set to a literal
+    (self.x = {} / [] / None / a constant), as fresh values - enough to stand for a freshly constructed object
+    in rules that interpret one of its methods."""
+    out = {}
+    for k in reversed([k for k in m.mro(cls) if isinstance(k, M.ClassInfo)]):
+        init = k.methods.get('__init__')
+        if init is None:
+            continue
+        for n in M.walk_no_nested(init.node):
+            if isinstance(n, ast.Assign) and len(n.targets) == 1 and isinstance(n.targets[0], ast.Attribute) \
+               and isinstance(n.targets[0].value, ast.Name) and n.targets[0].value.id == 'self':
+                v = n.value
+                name = n.targets[0].attr
+                if isinstance(v, ast.Dict) and not v.keys:
+                    out[name] = {}
+                elif isinstance(v, ast.List) and not v.elts:
+                    out[name] = []
+                elif isinstance(v, ast.Constant):
+                    out[name] = v.value
+                elif isinstance(v, ast.Call) and isinstance(v.func, ast.Name) and v.func.id in ('dict', 'list') and not v.args and not v.keywords:
+                    out[name] = {} if v.func.id == 'dict' else []
     return out
